@@ -11,6 +11,7 @@ one() {
   W=/tmp/rc/$ID; mkdir -p $W
   git -C /repo worktree add --detach $W/repo HEAD >/dev/null 2>&1 || { echo "$ID: worktree failed"; return; }
   ( cd $W/repo && git apply /verif/seeded/$ID/patch.diff ) || { echo "$ID: PATCH-DOES-NOT-APPLY"; git -C /repo worktree remove --force $W/repo; return; }
+  for f in $(cd /repo && git ls-files '*contracts_verif.go'); do cp /repo/$f $W/repo/$f; done
   mkdir -p $W/verif; ( cd /verif && tar cf - --exclude=.git --exclude=seeded --exclude=harmless --exclude=replays --exclude=engine . ) | tar xf - -C $W/verif
   ( cd $W/verif && ./bin/govc check --repo $W/repo --verif $W/verif --property $PROP > $W/out.txt 2>&1 )
   if grep -qE "^VIOLATION|^CHECK-BROKEN" $W/out.txt; then
